@@ -177,6 +177,7 @@ impl<NodeID: Copy + Hash + Integer, Weight: Bounded + Copy + Integer + Debug, Da
         let key = self.inserted_nodes[index].key;
 
         self.inserted_nodes[index].weight = weight;
+        self.heap[key].weight = weight;
         self.up_heap(key);
     }
 
